@@ -272,24 +272,42 @@ def locked(sc):
     operand's current value is not such a value (e.g. 'set F=OTHER' while OTHER has no value) there is nothing the
     option could be locked to, the library ignores that 'set' with a note, and the option counts as not locked.
     The operand's VALUE is what the documented grammar ('set TARGET=(value | symbol)') assigns, not its name.
+
+    Returns "" (not locked) or what locks the option: "select", "set" (operand is a literal, or the target is a
+    string), "set-sym-numeric" (int/hex/float target and the operand of the deciding 'set' is a SYMBOL: its name is
+    no literal of the target's type, its value is one).  The last kind is kept apart because the library is known to
+    ignore exactly these (KNOWN_FINDINGS C01 precedence:<type>:set-sym): what follows from that gets its own class.
     """
     if not isinstance(sc, K.Symbol):
-        return False
+        return ""
+
+    def literal(text):
+        try:
+            if sc.orig_type == K.INT:
+                int(text, 10)
+            elif sc.orig_type == K.HEX:
+                int(text, 16)
+            elif sc.orig_type == K.FLOAT:
+                return bool(K.is_float(text))
+        except ValueError:
+            return False
+        return True
+
     for v, cond, _s in sc.rev_values:
         if K.expr_value(cond):
-            val = v.str_value
-            try:
-                if sc.orig_type == K.INT:
-                    int(val, 10)
-                elif sc.orig_type == K.HEX:
-                    int(val, 16)
-                elif sc.orig_type == K.FLOAT:
-                    if not K.is_float(val):
-                        return False
-            except ValueError:
-                return False
-            return True
-    return sc.orig_type == K.BOOL and not sc.choice and K.expr_value(sc.rev_dep) == 2
+            if not literal(v.str_value):
+                return ""
+            if sc.orig_type in (K.INT, K.HEX, K.FLOAT) and not literal(v.name):
+                return "set-sym-numeric"
+            return "set"
+    return "select" if sc.orig_type == K.BOOL and not sc.choice and K.expr_value(sc.rev_dep) == 2 else ""
+
+
+def locked_suffix(sc, how):
+    """Class suffix for a changed locked option: names the known root cause when (and only when) it applies."""
+    if how == "set-sym-numeric":
+        return ":set-sym-operand-ignored-for-numeric-target:" + K.TYPE_TO_STR[sc.orig_type]
+    return ""
 '''
 
 SCRIPT_MAIN = r'''
@@ -319,6 +337,7 @@ _disk = _HELPER_NS["disk"]
 _would_write = _HELPER_NS["would_write"]
 _same_value = _HELPER_NS["same_value"]
 _locked = _HELPER_NS["locked"]
+_locked_suffix = _HELPER_NS["locked_suffix"]
 
 _CODE_CACHE = {}
 _WORK_ROOT = [None]
@@ -1588,9 +1607,10 @@ def _check_c17(ui, action, pre):
         if pre["locked"].get(id(sc)):
             ui.evaluations += 1
             if post != pre["snap"] or delta:
-                return _Violation("ui:locked-option-changed:%s" % kind, CONTRACTS["C17"][5],
-                                  "%s on the row of %s, which is locked by an active set/select, changed %s" % (
-                                      _describe(action), ui.label(node), sorted(delta) or "values"),
+                how = pre["locked"][id(sc)]
+                return _Violation("ui:locked-option-changed:%s%s" % (kind, _locked_suffix(sc, how)), CONTRACTS["C17"][5],
+                                  "%s on the row of %s, which is locked by an active set/select (%s), changed %s" % (
+                                      _describe(action), ui.label(node), how, sorted(delta) or "values"),
                                   "snap(k) != pre or ustate(k) != pre_u", need_pre=True)
         allowed = _choice_keys(k, sc)
         ui.evaluations += 1
@@ -1655,8 +1675,10 @@ def _check_c17(ui, action, pre):
                 return _Violation("ui:reset-leaves-user-value", CONTRACTS["C17"][7],
                                   "r on %s: the option still has a user value" % ui.label(node), "False")
             if isinstance(sc, K.Symbol) and pre["locked"].get(id(sc)) and post[sc.name][0] != pre["snap"][sc.name][0]:
-                return _Violation("ui:locked-option-changed:r", CONTRACTS["C17"][5],
-                                  "r on the locked option %s changed its value" % sc.name, "snap(k) != pre", need_pre=True)
+                how = pre["locked"][id(sc)]
+                return _Violation("ui:locked-option-changed:r" + _locked_suffix(sc, how), CONTRACTS["C17"][5],
+                                  "r on the locked option %s (locked by %s) changed its value" % (sc.name, how),
+                                  "snap(k) != pre", need_pre=True)
         if not delta <= allowed:
             return _Violation("ui:reset-touches-other-options", CONTRACTS["C17"][7],
                               "%s changed the user values of %s" % (_describe(action), sorted(delta - allowed)),
